@@ -326,7 +326,7 @@ func c29Run(t *testing.T, cj []byte, res *vfResult) {
 		unfinished = s.Unfinished()
 		trace = append(trace, s.Trace...)
 		preempts = s.Preempts
-		s.Stop()
+		s.StopIf(outcome == "done")
 	})
 	res.Steps = len(trace)
 	res.stat("preemptions", int64(preempts))
